@@ -350,7 +350,11 @@ impl FarmGen {
         self.n_explicit += 1;
         let id = match self.rng.gen_range(0..6) {
             0 | 1 => Some(format!("pos{}", self.n_explicit)),
-            2 => f.positions.keys().next().map(|k| k.trim_start_matches("u-").trim_start_matches("p-").to_string()),
+            2 => {
+                // an identifier that is already taken (open, or closed and not yet withdrawn)
+                let taken: Vec<&String> = f.positions.keys().filter(|k| k.starts_with("u-")).collect();
+                taken.choose(&mut self.rng).map(|k| k.trim_start_matches("u-").to_string())
+            }
             _ => None,
         };
         let receiver = match self.rng.gen_range(0..10) {
